@@ -549,19 +549,6 @@ def run(ctx):
         owners.append(("corr:" + key, {"stream": "kernel", "case": c, "observed": o},
                        f"{c['fn']}: implementation differs from the proved model of pennylane.kernels"))
 
-    # ---- the documentation discrepancy (fixed witness, stable key)
-    for c, o in zip(payload["kernel"], res["kernel"]):
-        if c == CORPUS_DOC and isinstance(o["out"], list):
-            T = np.array(c["kernel"]["T"]); Y = np.array(c["Y"], dtype=float)
-            doc = float(Y @ T @ Y) / (math.sqrt(float(np.sum(np.outer(Y, Y)))) * math.sqrt(float(np.sum(T * T))))
-            if abs(doc - fl(o["out"])) > 1e-6:
-                ctx.violation(DOC_KEY, {"stream": "kernel", "case": c, "target_alignment": fl(o["out"]),
-                                        "docstring_formula": doc,
-                                        "implemented": "sum_ij y_i y_j k_ij / (sqrt(sum_ij (y_i y_j)^2) sqrt(sum_ij k_ij^2))"},
-                              what="documentation only: target_alignment's docstring formula has denominator "
-                                   "sqrt(sum_ij y_i y_j) (= 0 for balanced classes); the code divides by "
-                                   f"sqrt(sum_ij (y_i y_j)^2). X=3 points, Y=[1,1,-1]: code {fl(o['out']):.6f}, docstring {doc:.6f}")
-
     # ---- spectral post-processing
     spec_hist = {}
     for c, o in zip(payload["post"], res["post"]):
